@@ -120,8 +120,8 @@ def run(tier):
             v0 = float(r.choice([1.0, 2.5]))
             src, cls = P.safe_source(r, sh, d, cls=str(r.choice(["node", "interior"])))
             meta = {"kind": "grad", "g": gvec.tolist(), "v0": v0}
-        if P.grid_coord_risky(src, d):
-            continue
+        if P.grid_coord_risky(src, d) or P.grid_coord_risky(src, tuple(x / 2 for x in d)):
+            continue        # sources within rounding of a grid line (of either sampling) are C03's subject
         for ref in (1, 2):
             sh2 = tuple(n * ref for n in sh)
             d2 = tuple(x / ref for x in d)
@@ -203,11 +203,14 @@ def run(tier):
             # only meaningful when the coarse-grid error is a visible fraction of a cell crossing time
             # (pre-asymptotic coarse grids with the source 1-2 cells from a strong interface are not monotone: the
             # targeted corner cases are exempt)
+            # "the error decreases": violated when it decreases in neither norm (on grids of 3-4 cells the mean over the nodes
+            # can rise by a quarter at the first halving while the maximum falls; both fall from there on)
             if m["ref"] == 2 and prev is not None and not m.get("norefine") and prev[0] > 0.01 * 2 * bound \
-                    and err.mean() > 1.25 * prev[0]:
+                    and err.mean() > 1.25 * prev[0] and err.max() > prev[1]:
                 ck.violation("error does not decrease when the same medium is sampled on a finer grid",
-                             dict(pl, mean_err_h=prev[0], mean_err_h2=float(err.mean())))
-            prev = (float(err.mean()),) if m["ref"] == 1 else None
+                             dict(pl, mean_err_h=prev[0], mean_err_h2=float(err.mean()), max_err_h=prev[1],
+                                  max_err_h2=float(err.max())))
+            prev = (float(err.mean()), float(err.max())) if m["ref"] == 1 else None
     ck.proved = ["registration of velocity cells: the 1-D operator along an edge uses the minimum slowness of the cells adjoining "
                  "that edge, the 2-D operator of each quadrant the slowness of its upwind cell (i-sgnvz, j-sgnvx)",
                  "at a sweep fixed point the time increases along a grid edge by at most d x that edge slowness (any scalar type)",
